@@ -188,6 +188,10 @@ func (x *Explorer) call(st *State, site ssa.CallInstruction, cc *ssa.CallCommon,
 				res.Tags = TObjName
 			}
 			x.emit(st, &Event{Kind: EvEffect, Eff: e, Instr: site, Tags: x.tagsOf(st, cc.Value)})
+			if e == EHookI {
+				// after Initialize the object carries an identifier
+				x.emit(st, &Event{Kind: EvEffect, Eff: ECallInit, Instr: site, Tags: x.tagsOf(st, cc.Value)})
+			}
 			x.defineResult(st, site, deferred, res)
 		case cc.Method.Name() == "Close" && (isNamedFrom(cc.Value.Type(), "io", "WriteCloser") || isNamedFrom(cc.Value.Type(), "io", "Closer") || isNamedFrom(cc.Value.Type(), "io", "ReadCloser")):
 			x.emit(st, &Event{Kind: EvEffect, Eff: ECloseIface, Instr: site})
@@ -617,6 +621,8 @@ func (x *Explorer) external(st *State, site ssa.CallInstruction, cc *ssa.CallCom
 				}
 				if lk.HDepth == 0 {
 					lk.H = 0
+					// verdicts obtained in the critical section that ends here are stale from now on
+					st.stale = st.stale.Union(st.must.Inter(okBitsEngine))
 				}
 			}
 		case "S":
